@@ -18,8 +18,7 @@
         assumption (made explicit as the Section variables of Model/ArmorStream.v).
      2. Tokenizer.Text: NUL replacement in raw text/RCDATA, character references
         ([unescape], escape.go, with the full entity table of Model/HtmlEntities.v and the
-        int32 wrap-around of numeric references).  convertNewlines is not modelled: CR, LF are
-        both ASCII whitespace for the splitter below, so its effect is not observable.
+        int32 wrap-around of numeric references), convertNewlines.
      3. decodeToWriter: pre nesting, bufio.Scanner with splitASCIIWhitespace ([words]; a word
         of >= 65536 bytes is bufio.ErrTooLong), one pipe Write per word.
      [step]/[run]/[finish] = layers 1-3 as one automaton over the document bytes;
@@ -278,6 +277,19 @@ Fixpoint unesc (skip : nat) (l : bytes) : bytes :=
   end.
 Definition unescape (l : bytes) : bytes := unesc O l.
 
+(* convertNewlines: "\r" and "\r\n" become "\n" *)
+Fixpoint conv_nl (l : bytes) : bytes :=
+  match l with
+  | [] => []
+  | c :: l' =>
+      if c =? 13 then
+        10 :: match l' with
+              | c2 :: l'' => if c2 =? 10 then conv_nl l'' else conv_nl l'
+              | [] => []
+              end
+      else c :: conv_nl l'
+  end.
+
 (* which post-processing Tokenizer.Text applies: (convertNUL, textIsRaw) *)
 Inductive tkind :=
 | KText      (* main-loop text: character references *)
@@ -286,9 +298,9 @@ Inductive tkind :=
 
 Definition text_data (k : tkind) (d : bytes) : bytes :=
   match k with
-  | KText => unescape d
-  | KRcdata => unescape (nul_replace d)
-  | KRaw => nul_replace d
+  | KText => unescape (conv_nl d)
+  | KRcdata => unescape (nul_replace (conv_nl d))
+  | KRaw => nul_replace (conv_nl d)
   end.
 
 (* ================================================================== layer 1: the tokenizer *)
